@@ -212,6 +212,9 @@ Section VisitorModel.
   | SLogin (rid user : bytes)
   | SLogout (rid : bytes)
   | SRegister (rid : bytes) (k : pkind) (name sk : bytes) (allow : list bytes)
+    (* RegisterProxy whose Exist check was answered "free" before a concurrent registration of the same name
+       completed (no lock spans Exist .. Run .. Add): only Run and Add happen now *)
+  | SRegisterLate (rid : bytes) (k : pkind) (name sk : bytes) (allow : list bytes)
   | SClose (rid name : bytes)
   | SVisitorConn (rid name : bytes) (ts : Z) (sign : bytes) (use_enc use_comp : bool) (cid : Z) (enc_ok : bool)
   | SNatHole (rid name : bytes) (ts : Z) (sign : bytes) (pre : bool) (sid : bytes) (delivered : bool)
@@ -222,6 +225,7 @@ Section VisitorModel.
   | ONone
   | OReg (o : vm_lout)
   | ORegErrExists            (* "proxy [%s] already exists" *)
+  | ORegErrInUse             (* pxyManager.Add: "proxy name [%s] is already in use"; the deferred pxy.Close() ran *)
   | ONoSession               (* message from a run id that has no session: cannot reach a handler *)
   | OVis (o : vm_out)
   | OVisErrNoControl         (* "no client control found for run id [%s]" *)
@@ -258,6 +262,34 @@ Section VisitorModel.
     let s1 := sys_close_owned s rid (s_pxys s) in
     {| s_users := vdel rid (s_users s1); s_pxys := s_pxys s1; s_vm := s_vm s1; s_nh := s_nh s1 |}.
 
+  (* RegisterProxy after its Exist check: pxy.Run() (Listen / ListenClient), then pxyManager.Add, which checks the
+     name again; when Add fails the deferred pxy.Close() removes by name what Run has just set up *)
+  Definition sys_run_add (s : sys) (rid : bytes) (k : pkind) (name sk : bytes) (eff : list bytes) : sys * sout :=
+    if is_hole k then
+      let '(nh', o) := vnh_listen_client (s_nh s) name sk eff in
+      match o with
+      | VLErrRepeated => (s, OReg VLErrRepeated)
+      | VLOk =>
+          match vget name (s_pxys s) with
+          | None => ({| s_users := s_users s; s_pxys := (name, (rid, k)) :: s_pxys s;
+                        s_vm := s_vm s; s_nh := nh' |}, OReg VLOk)
+          | Some _ => ({| s_users := s_users s; s_pxys := s_pxys s; s_vm := s_vm s;
+                          s_nh := vnh_close_client nh' name |}, ORegErrInUse)
+          end
+      end
+    else
+      let '(vm', o) := vm_listen (s_vm s) name sk eff in
+      match o with
+      | VLErrRepeated => (s, OReg VLErrRepeated)
+      | VLOk =>
+          match vget name (s_pxys s) with
+          | None => ({| s_users := s_users s; s_pxys := (name, (rid, k)) :: s_pxys s;
+                        s_vm := vm'; s_nh := s_nh s |}, OReg VLOk)
+          | Some _ => ({| s_users := s_users s; s_pxys := s_pxys s;
+                          s_vm := vm_close_listener (vm_listener_close vm' name) name; s_nh := s_nh s |}, ORegErrInUse)
+          end
+      end.
+
   Definition sys_step (s : sys) (op : sop) : sys * sout :=
     match op with
     | SLogin rid user =>
@@ -271,23 +303,13 @@ Section VisitorModel.
         | Some owner_user =>
             match vget name (s_pxys s) with
             | Some _ => (s, ORegErrExists)
-            | None =>
-                let eff := vdefault_allow allow owner_user in
-                if is_hole k then
-                  let '(nh', o) := vnh_listen_client (s_nh s) name sk eff in
-                  match o with
-                  | VLOk => ({| s_users := s_users s; s_pxys := (name, (rid, k)) :: s_pxys s;
-                                s_vm := s_vm s; s_nh := nh' |}, OReg VLOk)
-                  | VLErrRepeated => (s, OReg VLErrRepeated)
-                  end
-                else
-                  let '(vm', o) := vm_listen (s_vm s) name sk eff in
-                  match o with
-                  | VLOk => ({| s_users := s_users s; s_pxys := (name, (rid, k)) :: s_pxys s;
-                                s_vm := vm'; s_nh := s_nh s |}, OReg VLOk)
-                  | VLErrRepeated => (s, OReg VLErrRepeated)
-                  end
+            | None => sys_run_add s rid k name sk (vdefault_allow allow owner_user)
             end
+        end
+    | SRegisterLate rid k name sk allow =>
+        match vget rid (s_users s) with
+        | None => (s, ONoSession)
+        | Some owner_user => sys_run_add s rid k name sk (vdefault_allow allow owner_user)
         end
     | SClose rid name =>
         (* CloseProxy looks the name up in the session's own proxies only *)
@@ -419,6 +441,14 @@ Definition spec_step (sp : vspec) (op : sop) : vspec :=
   | SLogin rid user => {| sp_user := vupd (sp_user sp) rid (Some user); sp_reg := spec_drop_owner rid (sp_reg sp) |}
   | SLogout rid => {| sp_user := vupd (sp_user sp) rid None; sp_reg := spec_drop_owner rid (sp_reg sp) |}
   | SRegister rid k name sk allow =>
+      match sp_user sp rid, sp_reg sp name with
+      | Some u, None =>
+          {| sp_user := sp_user sp;
+             sp_reg := vupd (sp_reg sp) name
+                            (Some {| vr_owner := rid; vr_kind := k; vr_sk := sk; vr_allow := vdefault_allow allow u |}) |}
+      | _, _ => sp
+      end
+  | SRegisterLate rid k name sk allow =>
       match sp_user sp rid, sp_reg sp name with
       | Some u, None =>
           {| sp_user := sp_user sp;
